@@ -107,7 +107,8 @@ class Run:
         open(cfgp, "w").write(cfg)
         outp = os.path.join(self.work, name + ".out")
         meta = os.path.join(self.work, "meta_" + name)
-        cmd = ["java", "-XX:+UseParallelGC", "-Xss64m", "-Xmx" + heap, "-cp", JAR, "tlc2.TLC",
+        cmd = ["java", "-XX:+UseParallelGC", "-XX:ParallelGCThreads=%d" % (2 if workers == 1 else 8), "-Xss64m", "-Xmx" + heap,
+               "-cp", JAR, "tlc2.TLC",
                "-workers", str(workers), "-metadir", meta, "-config", cfgp, "-noGenerateSpecTE"]
         if simulate:
             cmd += ["-simulate", simulate]
